@@ -481,7 +481,7 @@ class Formatter(BaseFormatter):
             )
 
         _fmt = cls.gen_format(_fmt)
-        if _search := re.search(rf"^{_fmt}$", _value):
+        if _search := re.search(rf"^{_fmt}\Z", _value):
             return cls(_search.groupdict(), set_strict_mode=strict)
 
         raise FormatterValueError(
@@ -3795,7 +3795,7 @@ class FormatterGroup:
             from searching step with `re` module.
         """
         _fmt, _fmt_getter = cls.gen_format(fmt=fmt)
-        if not (_search := re.search(rf"^{_fmt}$", value)):
+        if not (_search := re.search(rf"^{_fmt}\Z", value)):
             raise FormatterGroupArgumentError(
                 "format",
                 f"{value!r} does not match with the format: '^{_fmt}$'",
